@@ -131,4 +131,50 @@ def generate(repo):
     only_purge = len(re.findall(r'element_versions\(\)\s*;?\s*(?:\n\s*)?(?:for[^\n]*\n\s*)?collection\.remove|collection\.remove\(\*row_id\)', hi)) >= 1
     out.append('Definition version_rows_removed_only_by_purge : bool := %s.\n' % b(
         only_purge and len(re.findall(r'\.remove\(', hi)) == 1 and 'fn remove_versions' in hi))
+    # ---- kql/matching.rs: the re-checks a historical read applies (the indexes describe the present, so at a
+    # coordinate every constraint the index would have enforced is decided against the reconstructed row)
+    mt = strip_rust_comments(read(repo, base + 'kql/matching.rs'))
+    tm = fn_body(mt, 'tuple_matches', G)
+    out.append('Definition historical_tuple_rechecks_active : bool := %s.\n' % b(bool(re.search(r'if row\.state != "active"\s*\{\s*return false;', tm))))
+    out.append('Definition historical_tuple_rechecks_endpoints_and_predicate : bool := %s.\n' % b(
+        'row.subject_key != endpoint.key()' in tm and 'row.object_key != endpoint.key()' in tm and 'predicate_ref' in tm))
+    me = fn_body(mt, 'match_element', G)
+    out.append('Definition historical_element_rechecks_active : bool := %s.\n' % b(bool(re.search(
+        r'if by_id\.is_some\(\) \|\| historical\s*\{.*?if !constrains_state && !element\.is_active\(\)\s*\{\s*continue;', me, re.S))))
+    out.append('Definition historical_element_rechecks_every_matcher_key : bool := %s.\n' % b(bool(re.search(
+        r'if historical && !matches!\(column_of\(kind, key\), Some\("__id"\)\)\s*\{.*?post\.push\(\(key\.clone\(\), slot\)\);\s*continue;', me, re.S))))
+    vk = fn_body(mt, 'view_key', G)
+    out.append('Definition state_constraint_reads_system_state : bool := %s.\n' % b(bool(re.search(r'\(_, "state"\)\s*=>\s*"_system\.state"', vk))))
+    mp = fn_body(mt, 'match_proposition', G)
+    out.append('Definition proposition_by_id_rechecks_active : bool := %s.\n' % b(bool(re.search(r'element\.space\(\) == self\.space && element\.is_active\(\)', mp))))
+    ms = fn_body(mt, 'match_structural', G)
+    out.append('Definition structural_source_rechecks_active : bool := %s.\n' % b(bool(re.search(r'element\.space\(\) != self\.space \|\| !element\.is_active\(\)\s*\{\s*continue;', ms))))
+    nb = fn_body(mt, 'neighbours', G)
+    out.append('Definition historical_path_step_rechecks_active : bool := %s.\n' % b(bool(re.search(
+        r'if historical\s*\{.*?!matches_anchor \|\| row\.state != "active" \|\| !symbols\.contains\(&row\.predicate_ref\)', nb, re.S))))
+    ts = fn_body(mt, 'tuple_subjects', G)
+    out.append('Definition historical_path_seed_rechecks_active : bool := %s.\n' % b(bool(re.search(
+        r'if historical && \(row\.state != "active" \|\| !symbols\.contains\(&row\.predicate_ref\)\)', ts))))
+    kq = strip_rust_comments(read(repo, base + 'kql/mod.rs'))
+    cd = fn_body(kq, 'candidates', G)
+    out.append('Definition historical_candidates_rebuilt_from_version_log : bool := %s.\n' % b(bool(re.search(
+        r'if let Some\(seq\) = self\.as_of\s*\{\s*let elements = self\.store\.elements_at\(&self\.space, kind, seq\)', cd))))
+    ld = fn_body(kq, 'load', G)
+    out.append('Definition historical_load_reads_element_at : bool := %s.\n' % b(bool(re.search(
+        r'Some\(seq\) => self\.store\.element_at\(&self\.space, id, seq\)', ld))))
+    # ---- nexus.rs: Executor::execute for Session - which side of the RwLock each command family holds, and for how long
+    nx = strip_rust_comments(read(repo, base + 'nexus.rs'))
+    m = re.search(r'impl Executor for Session\s*\{(.*?)\n\}\n', nx, re.S)
+    ex = m.group(1) if m else ''
+    if not ex:
+        lost(G, 'impl Executor for Session')
+    arms = re.split(r'Command::(Kml|Kql|Meta)\(', ex)
+    arm = {arms[i]: arms[i + 1] for i in range(1, len(arms) - 1, 2)}
+    def holds(a, side, call):
+        t = arm.get(a, '')
+        g = t.find('let _guard = self.nexus.lock.%s().await;' % side)
+        return 0 <= g < t.find(call) if call in t else False
+    out.append('Definition kml_holds_write_lock_across_execute : bool := %s.\n' % b(holds('Kml', 'write', 'crate::kml::execute(')))
+    out.append('Definition kql_holds_read_lock_across_execute : bool := %s.\n' % b(holds('Kql', 'read', 'crate::kql::execute(')))
+    out.append('Definition meta_holds_read_lock_across_execute : bool := %s.\n' % b(holds('Meta', 'read', 'crate::meta::execute(')))
     return G, ''.join(out)
